@@ -50,6 +50,7 @@ class Sandbox:
         cmd = (prefix or []) + [exe or build.VSB, "-c", self.cfg] + args
         p = subprocess.run(cmd, stdout=subprocess.PIPE, stderr=subprocess.PIPE, env=e, timeout=timeout, cwd=self.root)
         out = (p.stdout + p.stderr).decode("utf-8", "replace")
+        record_messages(out)
         return p.returncode, out
 
     # ---- independent storage codec ----------------------------------------------------------------------------
@@ -67,6 +68,16 @@ class Sandbox:
         if p.returncode != 0:
             raise build.BuildError("storage-read failed: %s" % p.stderr)
         return json.loads(p.stdout)
+
+
+def record_messages(out):
+    """message coverage (tools/msgcov.py): with VERIF_MSGCOV=<file> every error / warning line the real binary prints is appended there"""
+    f = os.environ.get("VERIF_MSGCOV")
+    if f:
+        lines = [l for l in out.split("\n") if l.startswith(("E:", "W:"))]
+        if lines:
+            with open(f, "a") as h:
+                h.write("\n".join(lines) + "\n")
 
 
 def errors_of(out):
